@@ -130,6 +130,27 @@ Fixpoint wf2_run (e : env) (G : gnet) (vs : list lev) : Prop :=
   | v :: r => wf2_ev G v /\ wf2_run e (gstep e G v) r
   end.
 
+(* (auth) + (near) WITHOUT (fresh acks): used to show that (fresh acks) cannot be dropped *)
+Definition nofresh_ev (G : gnet) (vl : lev) : Prop :=
+  let '(v, l) := vl in
+  match v with
+  | NB x => forall d, dgram_in x = Some d -> opens (nB (g_net G)) d = true ->
+              In (l, d) (g_AB G) /\ idx_near (g_B G) l
+  | NA x => ev_open2 x /\
+            forall d, dgram_in x = Some d -> opens (nA (g_net G)) d = true -> exists g, In (g, d) (g_BA G)
+  end.
+Fixpoint nofresh_run (e : env) (G : gnet) (vs : list lev) : Prop :=
+  match vs with
+  | [] => True
+  | v :: r => nofresh_ev G v /\ nofresh_run e (gstep e G v) r
+  end.
+
+(* the joint state G with A replaced (used to exhibit a state late in a long session) *)
+Definition with_A (G : gnet) (a : conn) (n : Z) : gnet :=
+  {| g_net := {| nA := a; nB := nB (g_net G); wAB := wAB (g_net G); wBA := wBA (g_net G);
+                 sentA := sentA (g_net G); dlvB := dlvB (g_net G) |};
+     g_nA := n; g_AB := g_AB G; g_B := g_B G; g_accB := g_accB G; g_BA := g_BA G |}.
+
 (* short sessions: (auth) only, and A never consumes more than HALF + 1 sequence numbers *)
 Fixpoint auth_run (e : env) (G : gnet) (vs : list lev) : Prop :=
   match vs with
